@@ -493,7 +493,12 @@ func main() {
 	tier := flag.String("tier", "quick", "")
 	_ = flag.String("prop", "C02", "")
 	_ = flag.String("replay", "", "")
+	mine := flag.Bool("mine-fork", false, "find the nonce of the fork fixture header (one-off)")
 	flag.Parse()
+	if *mine {
+		mineFork()
+		return
+	}
 	start := time.Now()
 	thorough := *tier == "thorough"
 	total := newResult()
@@ -501,7 +506,7 @@ func main() {
 	for _, p := range []struct {
 		name string
 		f    func(bool) *result
-	}{{"target-function", targetPart}, {"bits-decoding", bitsPart}, {"real-chain", chainPart}} {
+	}{{"target-function", targetPart}, {"bits-decoding", bitsPart}, {"real-chain", chainPart}, {"own-branch-target", forkPart}} {
 		t0 := time.Now()
 		r := p.f(thorough)
 		parts[p.name] = r
